@@ -1,7 +1,7 @@
 (* C04 - flow derives pre-release, post and dev parts from the documented branch rules.
    Model: Model/Flow.v (the cli/flow module: branch rules, two-pass pipeline, the five bump templates as the conditions they
    evaluate to) + Model/Hash.v (SipHash-1-3 of DefaultHasher::new(), hash_int / hash). *)
-From ZV Require Import Str Dec Hash Flow FlowProofs Convert Cli ClockProofs CtxFrame FlowClock.
+From ZV Require Import Str Dec Hash Flow FlowProofs Convert Zerv Render Bump Cli ClockProofs CtxFrame FlowClock FlowLaw.
 Open Scope N_scope.
 
 (* rule patterns: `prefix/*` matches exactly the names that have `prefix/` as a proper prefix ... *)
@@ -47,9 +47,38 @@ Theorem c04_clean_tag_unchanged : forall f stdin now,
   flow_zerv f stdin now = OOk cur.
 Proof. exact flow_clean_is_first_pass. Qed.
 
+(* THE FLOW LAW (dirty or ahead).  On the default precedence order, for ANY starting variables: the bump arguments flow computes are
+   [flow_args] and the bump / reset engine turns them into [law_vars]: patch+1 iff the base has no pre-release; pre-release := (label,
+   number); post := (--post or the base post, 0 if unset) + distance (commit mode) or + 1 (tag mode); dev := now iff dirty (commit mode)
+   or dirty/ahead (tag mode); epoch, major, minor and the VCS context untouched.  The number is the rule's / flag's number or else the
+   branch hash of the configured length. *)
+Theorem c04_flow_law : forall s vs opost lab n pamt dev,
+  prec_order s = default_prec ->
+  fits (n0 (v_patch vs) + 1) -> fits n ->
+  (match pamt with Some k => fits (n0 opost + k) | None => True end) ->
+  (match dev with Some d => fits d | None => True end) ->
+  apply_component_processing (flow_args vs opost lab n pamt dev) {| z_schema := s; z_vars := vs |}
+  = Some {| z_schema := s; z_vars := law_vars vs opost lab n pamt dev |}.
+Proof. exact flow_law. Qed.
+
+Theorem c04_second_pass_law : forall lab num mode hl now a s vs ra n,
+  prec_order s = default_prec ->
+  resolve_args a = Some ra -> ro_major ra = None -> ro_minor ra = None -> ro_patch ra = None -> ro_epoch ra = None ->
+  flow_cond vs = true -> flow_number num hl vs = Some n -> u32_fits n = true ->
+  (match flow_post_amount mode vs with Some k => u32_fits k = true | None => True end) ->
+  (flow_dev_on mode vs = true -> u32_fits now = true) ->
+  let opost := match o_post a with Some _ => ro_post ra | None => v_post vs end in
+  fits (n0 (v_patch vs) + 1) -> (match flow_post_amount mode vs with Some k => fits (n0 opost + k) | None => True end) ->
+  exists b, flow_bumps lab num mode hl now a {| z_schema := s; z_vars := vs |} = Some b /\
+            apply_component_processing b {| z_schema := s; z_vars := vs |}
+            = Some {| z_schema := s; z_vars := law_vars vs opost lab n (flow_post_amount mode vs) (if flow_dev_on mode vs then Some now else None) |}.
+Proof. exact flow_second_pass_law. Qed.
+
 Print Assumptions c04_wildcard_rule.
 Print Assumptions c04_star_rule.
 Print Assumptions c04_exact_rule.
 Print Assumptions c04_first_match.
 Print Assumptions c04_hash_length.
 Print Assumptions c04_clean_tag_unchanged.
+Print Assumptions c04_flow_law.
+Print Assumptions c04_second_pass_law.
